@@ -27,7 +27,7 @@ func tupleIn(vals []driver.Value, width int, tuple []interface{}) bool {
 	return false
 }
 
-var c11Shapes = []string{"has-many-int", "has-many-int-pointers", "composite-int", "composite-int-single", "composite-string-3-1", "composite-string-1-3", "composite-string-nil", "belongs-to", "has-one", "duplicate-parent", "join-nested-preload"}
+var c11Shapes = []string{"has-many-int", "has-many-int-pointers", "composite-int", "composite-int-single", "composite-string-3-1", "composite-string-1-3", "composite-string-nil", "belongs-to", "has-one", "duplicate-parent", "join-nested-preload", "composite-string-backslash", "belongs-to-string-nil", "join-self-nested"}
 
 func N_C11_Preload(tier int) int { return len(c11Shapes) }
 
@@ -144,12 +144,16 @@ func H_C11_Preload(shape int) {
 				verifrt.Assert(nt.FolderDoc == f.Doc && nt.FolderRev == f.Rev, "C11.foreign-key-mismatch")
 			}
 		}
-	case "composite-string-3-1", "composite-string-1-3", "composite-string-nil":
+	case "composite-string-3-1", "composite-string-1-3", "composite-string-nil", "composite-string-backslash":
 		l1, l2 := 3, 1
 		if kind == "composite-string-1-3" {
 			l1, l2 = 1, 3
 		}
 		alphabet := "a_"
+		if kind == "composite-string-backslash" {
+			alphabet = "_\\"
+			l1, l2 = 2, 3
+		}
 		var c1, z1, c2, z2 string
 		if kind == "composite-string-nil" {
 			// the text "nil" next to an empty key component
@@ -159,6 +163,7 @@ func H_C11_Preload(shape int) {
 			c1, z1 = symKeyStr("s1c", l1, alphabet), symKeyStr("s1z", l2, alphabet)
 			c2, z2 = symKeyStr("s2c", l2, alphabet), symKeyStr("s2z", l1, alphabet)
 		}
+		verifrt.Assume(verifrt.Or(c1 != c2, z1 != z2)) // two different parents
 		// one book per shelf
 		s.OnQuery = func(text string, args []driver.Value) RowSet {
 			if hasPrefix(text, "SELECT * FROM `shelfs`") {
@@ -220,6 +225,59 @@ func H_C11_Preload(shape int) {
 			verifrt.Assert(os[1].Profile.ID == 0, "C11.child-of-another-parent")
 			verifrt.Assert(os[2].Profile.ID == 23 && os[2].Profile.OwnerID == 3, "C11.wrong-child")
 		}
+	case "belongs-to-string-nil":
+		// outlets: one with a key, one with a NULL foreign key (order symbolic); a region whose key is the text "nil"
+		nullFirst := verifrt.Bool("null_first")
+		code := symKeyStr("code", 3, "nilx")
+		rowKey := []driver.Value{int64(1), code}
+		rowNull := []driver.Value{int64(2), nil}
+		rows := [][]driver.Value{rowKey, rowNull}
+		if nullFirst {
+			rows = [][]driver.Value{rowNull, rowKey}
+		}
+		s.OnQuery = func(text string, args []driver.Value) RowSet {
+			if hasPrefix(text, "SELECT * FROM `outlets`") {
+				return RowSet{Cols: []string{"id", "regioncode"}, Rows: rows}
+			}
+			rs := RowSet{Cols: []string{"code", "name"}}
+			if tupleIn(args, 1, []interface{}{code}) {
+				rs.Rows = append(rs.Rows, []driver.Value{code, "r"})
+			}
+			// the table also holds a region whose key is the text "nil"
+			if code != "nil" && tupleIn(args, 1, []interface{}{"nil"}) {
+				rs.Rows = append(rs.Rows, []driver.Value{"nil", "r"})
+			}
+			return rs
+		}
+		var os []Outlet
+		verifrt.Assert(db.Preload("Region").Find(&os).Error == nil, "C11.error")
+		verifrt.Assert(len(os) == 2, "C11.parents")
+		for _, o := range os {
+			if o.RegionCode == nil {
+				verifrt.Assert(o.Region == nil, "C11.null-foreign-key-attached")
+			} else {
+				verifrt.Assert(o.Region != nil && o.Region.Code == *o.RegionCode, "C11.wrong-child")
+			}
+		}
+	case "join-self-nested":
+		// Joins("Manager").Preload("Manager.Manager") into a slice: the nested manager must be loaded
+		s.OnQuery = func(text string, args []driver.Value) RowSet {
+			if hasPrefix(text, "SELECT `staffs`") {
+				return RowSet{Cols: []string{"id", "name", "managerid", "Manager__id", "Manager__name", "Manager__managerid"},
+					Rows: [][]driver.Value{{int64(1), "s1", int64(7), int64(7), "m7", int64(9)}, {int64(2), "s2", int64(8), int64(8), "m8", nil}}}
+			}
+			rs := RowSet{Cols: []string{"id", "name", "managerid"}}
+			if tupleIn(args, 1, []interface{}{int64(9)}) {
+				rs.Rows = append(rs.Rows, []driver.Value{int64(9), "top", nil})
+			}
+			return rs
+		}
+		var st []Staff
+		verifrt.Assert(db.Joins("Manager").Preload("Manager.Manager").Find(&st).Error == nil, "C11.error")
+		verifrt.Assert(len(st) == 2, "C11.parents")
+		verifrt.Assert(st[0].Manager != nil && st[0].Manager.ID == 7, "C11.wrong-child")
+		verifrt.Assert(st[0].Manager != nil && st[0].Manager.Manager != nil && st[0].Manager.Manager.ID == 9, "C11.nested-child-missing")
+		verifrt.Assert(st[1].Manager != nil && st[1].Manager.Manager == nil, "C11.null-foreign-key-attached")
 	case "join-nested-preload":
 		// Joins("Manager").Preload("Manager.Pets"): a row without manager precedes rows with one (order symbolic)
 		order := verifrt.Concretize(verifrt.Intn("order", 0, 2), 0, 2)
